@@ -245,8 +245,10 @@ pub fn jsonld_shapes(rng: &mut Rng, d: &mut Vec<Q>) {
 /// RDF/XML specific shapes: text over markup characters, whitespace runs, leading/trailing newlines, non-BMP and XML-illegal
 /// characters; language tags; datatypes incl. rdf:XMLLiteral; predicates with various namespace split points (and none)
 pub fn xml_shapes(rng: &mut Rng, d: &mut Vec<Q>) {
-    const PIECES: [&str; 30] = ["<", ">", "&", "\"", "'", " ", "  ", "\n", "\r", "\r\n", "\t", "]]>", "<b>", "</b>", "&amp;", "&#10;", "<!--", "-->", "<?x?>", "a", "é", "\u{1F600}", "\u{85}", "\u{2028}",
-        "\u{FFFD}", "x y", "\u{1}", "\u{B}", "\u{FFFE}", "\u{FFFF}"];
+    // (the first LEGAL entries are XML Char; the last four are not)
+    const LEGAL: usize = 32;
+    const PIECES: [&str; 36] = ["<", ">", "&", "\"", "'", " ", "  ", "\n", "\r", "\r\n", "\t", "]]>", "<b>", "</b>", "&amp;", "&#10;", "<!--", "-->", "<?x?>", "a", "é", "\u{1F600}", "\u{85}", "\u{2028}",
+        "\u{FFFD}", "x y", "\u{10000}", "\u{EFFFF}", "\u{F0000}", "\u{FFFFD}", "\u{100000}", "\u{10FFFF}", "\u{1}", "\u{B}", "\u{FFFE}", "\u{FFFF}"];
     const PREDS: [&str; 26] = ["http://ex/p", "http://ex/ns#p", "http://ex/a/b.c", "http://ex/1p", "http://ex/p-1", "urn:x:p", "http://ex/é", "http://ex/a%20b", "http://ex/x:y", "http://ex/ns#", "http://ex/",
         "http://ex/p1/", "http://ex/_", "http://ex/a.b-c_d", "http://www.w3.org/1999/02/22-rdf-syntax-ns#_1", "http://www.w3.org/1999/02/22-rdf-syntax-ns#li", "http://www.w3.org/1999/02/22-rdf-syntax-ns#Description",
         "http://www.w3.org/1999/02/22-rdf-syntax-ns#about", "http://www.w3.org/1999/02/22-rdf-syntax-ns#value", "http://ex/ns#1", "http://ex/\u{1F600}p", "http://ex/ns?q=p", "urn:x:1", "http://ex/ns:42", "http://ex/a:", "urn:x:p:-"];
@@ -260,7 +262,7 @@ pub fn xml_shapes(rng: &mut Rng, d: &mut Vec<Q>) {
         let k = rng.below(5);
         let mut txt = String::new();
         for _ in 0..k {
-            let piece = if legal_only { PIECES[rng.below(26)] } else { PIECES[rng.below(30)] };
+            let piece = if legal_only { PIECES[rng.below(LEGAL)] } else { PIECES[rng.below(PIECES.len())] };
             txt.push_str(piece);
         }
         let o = match rng.below(8) {
